@@ -1,6 +1,6 @@
 theorem L_closeCollect_core (s s' : State) (t : Tid) (hint : Option Id) (th0 : Thread)
     SIG (hpc : (s.thr t).pc = .closeCollect) (hop0 : th0.op = (s.thr t).op)
-    (hsta0 : th0.stale = (markStarted s (s.thr t)).stale)
+    (hsta0 : th0.stale = (markStarted s (s.thr t)).stale) (hstd0 : th0.started = true)
     (hcl0 : s.closed = false)
     (htd : ∀ r, r ∈ th0.todo ↔ r ∈ mapRefs s)
     (h : nextTodo { s with closed := true } t th0 hint = some s') : InvL s' := by
@@ -34,7 +34,7 @@ theorem L_closeCollect (s s' : State) (t : Tid) (hint : Option Id)
       { op := (s.thr t).op, pc := .closeCollect, todo := mapRefs s, retries := (markStarted s (s.thr t)).retries,
         started := (markStarted s (s.thr t)).started, stale := (markStarted s (s.thr t)).stale }
       (invA_heap_congr hA hce) (invB_heap_congr hB hce) (invC_heap_congr hC hce) (invD_heap_congr hD hce)
-      ht hpc rfl rfl (by simpa using hncl) (fun r => hmrefs r) h
+      ht hpc rfl rfl (markStarted_started _ _) (by simpa using hncl) (fun r => hmrefs r) h
 
 set_option hygiene false in
 local macro "open_env" : tactic => `(tactic|
@@ -50,6 +50,14 @@ local macro "open_env" : tactic => `(tactic|
    simp only [Pc.closerOf, Pc.loaderOf, Pc.holds] at hcl0 hld0 hhold0
    subst hcl0 hld0 hhold0
    thr_facts
+   have hstd : (s.thr t).started = true := by
+     rcases hc5 with h | h
+     · exact h
+     · exfalso; rw [hpc] at h; cases hop : (s.thr t).op <;> rw [hop] at h <;> simp [firstPc] at h
+   have hcr := hD.thr t ht
+   unfold CloseRun at hcr
+   rw [hpc] at hcr
+   simp only at hcr
    rw [hpc] at hTt
    simp only at hTt
    unfold envStep at h
@@ -83,14 +91,19 @@ local macro "closer_pre" : tactic => `(tactic|
      intro res; rcases hpc with h | h <;> rw [h] <;> simp
    have hnc : ∀ r i ab, (s.thr t).pc ≠ .loadCommit r i ab := by
      intro r i ab; rcases hpc with h | h <;> rw [h] <;> simp
-   have hcp : s.closed = true → CloseProgress s (s.thr t) →
-       (s.thr t).pc = .inClose r i ∧ ∀ r', r' < s.nHeap → Entry.inMapOf s r' → r' = r ∨ r' ∈ (s.thr t).todo := by
-     intro _ hp
-     unfold CloseProgress at hp
+   have hcr : (s.thr t).op = .close → (s.thr t).pc = .inClose r i ∧
+       s.closed = true ∧ ∀ r', r' < s.nHeap → Entry.inMapOf s r' → r' = r ∨ r' ∈ (s.thr t).todo := by
+     intro hop
+     have hp := hD.thr t ht hop
+     unfold CloseRun at hp
      rcases hpc with h | h
-     · rw [h] at hp; exact ⟨h, hp.2⟩
-     · rw [h] at hp; exact hp.2.elim
+     · rw [h] at hp; exact ⟨h, hp⟩
+     · rw [h] at hp; exact hp.elim
    thr_facts
+   have hstd : (s.thr t).started = true := by
+     rcases hc5 with h | h
+     · exact h
+     · exfalso; rcases hpc with h2 | h2 <;> rw [h2] at h <;> cases hop : (s.thr t).op <;> rw [hop] at h <;> simp [firstPc] at h
    have hr : r < s.nHeap := hTt.1
    ent_facts r
    have hval := hTt.2.2.2
@@ -108,11 +121,14 @@ theorem L_closed_core (s s' : State) (t : Tid) (hint : Option Id) (r : Ref) (i :
 
 theorem L_busy_core (s s' : State) (t : Tid) (hint : Option Id) (r : Ref) (i : Inst)
     (ok : Bool) (err : Option Err)
-    SIG (hpc : (s.thr t).pc = .inClose r i ∨ (s.thr t).pc = .inTry r i)
+    SIG (hpt : (s.thr t).pc = .inTry r i)
     (h : afterRemove ((s.setI i { s.inst i with st := if (s.inst i).st = .closing then .live else (s.inst i).st }).setE r
         { s.heap r with st := .active, chOpen := false, closer := none })
       t (s.thr t) ok err hint = some s') : InvL s' := by
+  have hpc : (s.thr t).pc = .inClose r i ∨ (s.thr t).pc = .inTry r i := Or.inr hpt
   closer_pre
+  have hnotclose : (s.thr t).op ≠ .close := by
+    intro hop; have := (hcr hop).1; rw [hpt] at this; cases this
   have hh := afterRemove_shape h
   with_after hh (frameL r, i)
 
@@ -141,8 +157,8 @@ theorem L_env_try (s s' : State) (t : Tid) (v : Verdict) (hint : Option Id) (r :
   cases v <;> simp only [hop, Bool.not_true, Bool.false_eq_true, if_false, if_true] at h
   case tryTrue => exact L_closed_core s s' t hint r i _ _ ARGS (Or.inr hpc) h
   case tryErrTrue => exact L_closed_core s s' t hint r i _ _ ARGS (Or.inr hpc) h
-  case tryFalse => exact L_busy_core s s' t hint r i _ _ ARGS (Or.inr hpc) h
-  case tryErrFalse => exact L_busy_core s s' t hint r i _ _ ARGS (Or.inr hpc) h
+  case tryFalse => exact L_busy_core s s' t hint r i _ _ ARGS hpc h
+  case tryErrFalse => exact L_busy_core s s' t hint r i _ _ ARGS hpc h
   all_goals cases h
 
 SPAWN
